@@ -25,7 +25,8 @@ RULE = ('for each generated model (tree generator of C13; one or two files; user
         'shape, phase, k, exception kind, variant); non-trivial = the failure hit after at least one object was allocated')
 REQUIRED = {'failed_loads': 400, 'objects_tracked': 3000, 'phase_provider': 20, 'phase_match_proc': 20, 'phase_obj_proc': 20,
             'phase_model_proc': 10, 'phase_init': 10, 'phase_syntax': 10, 'phase_unknown_ref': 10, 'phase_postponed': 10,
-            'two_file_faults': 40, 'next_load_compared': 100}
+            'two_file_faults': 40, 'next_load_compared': 100,
+            'globalrepo_provider_string_model_faults': 100}
 EXHAUSTIVE_CLAIM = False
 
 _tracked = []
@@ -108,6 +109,12 @@ def one(ctx, i, rep=None):
     two_files = (i % 3 == 1)
     use_classes = (i % 2 == 1)
     global_repo = (i % 5 == 4)
+    # GlobalRepo-type provider (file pattern) with the main model given as a string: the string model is registered in the
+    # shared repository under an invented name
+    globalrepo_provider = (i % 7 == 3)
+    if globalrepo_provider:
+        global_repo = True
+    tmp = tempfile.mkdtemp(prefix='tvc15_')
     roots = build(r, 0, two_files)
     texts = [T.pr(rt) for rt in roots]
     counts = {'provider': 0, 'match_proc': 0, 'obj_proc': 0, 'model_proc': 0, 'init': 0}
@@ -139,7 +146,16 @@ def one(ctx, i, rep=None):
                     return Postponed()
                 hit('provider')
                 return sp.ImportURI.__call__(self, obj, attr, ref)
-        mm.register_scope_providers({'*.*': Prov()})
+        class ProvG(sp.PlainNameGlobalRepo):
+            def __init__(self):
+                sp.PlainNameGlobalRepo.__init__(self, os.path.join(tmp, 'other*.m'))
+
+            def __call__(self, obj, attr, ref):
+                if fault['phase'] == 'postponed' and ref.obj_name.endswith('v'):
+                    return Postponed()
+                hit('provider')
+                return sp.PlainNameGlobalRepo.__call__(self, obj, attr, ref)
+        mm.register_scope_providers({'*.*': ProvG() if globalrepo_provider else Prov()})
 
         def op(x):
             hit('obj_proc')
@@ -150,15 +166,18 @@ def one(ctx, i, rep=None):
         mm.register_model_processor(lambda model, metamodel: hit('model_proc'))
         return mm, classes
     mm, classes = make_mm()
-    tmp = tempfile.mkdtemp(prefix='tvc15_')
 
     def write(tx):
         for nm, t in zip(['main.m', 'other.m'], tx):
             with open(os.path.join(tmp, nm), 'w') as f:
                 f.write(t)
+        if globalrepo_provider and len(tx) < 2:
+            # the file pattern of the provider must match something
+            with open(os.path.join(tmp, 'other0.m'), 'w') as f:
+                f.write('model dummy0\n')
 
     def load(m_):
-        if two_files:
+        if two_files and not globalrepo_provider:
             return m_.model_from_file(os.path.join(tmp, 'main.m'))
         return m_.model_from_str(texts_cur[0])
     try:
@@ -211,10 +230,12 @@ def one(ctx, i, rep=None):
             ctx.count('phase_' + pname)
             if two_files:
                 ctx.count('two_file_faults')
+            if globalrepo_provider:
+                ctx.count('globalrepo_provider_string_model_faults')
             wit = {'files': texts_cur, 'phase': phase, 'k': k, 'exception_kind': exc, 'user_classes': use_classes,
-                   'global_repository': global_repo, 'error': failed}
+                   'global_repository': global_repo, 'globalrepo_provider_with_string_model': globalrepo_provider, 'error': failed}
             n_alloc = len(_tracked)
-            ctx.case((tuple(n['kind'] for rt in roots for n in T.all_nodes(rt)), phase, k, exc, two_files, use_classes, global_repo),
+            ctx.case((tuple(n['kind'] for rt in roots for n in T.all_nodes(rt)), phase, k, exc, two_files, use_classes, global_repo, globalrepo_provider),
                      n_alloc > 0, wit if ctx.evaluations < 2 else None)
             if failed is None:
                 ctx.count('injected_fault_did_not_fail_the_load')
